@@ -141,12 +141,7 @@ func c16Years(c *ctx) {
 		everyDay(y, func(s *calendar.Solar, extra bool) {
 			k++
 			row := obj{"d": []int{s.GetYear(), s.GetMonth(), s.GetDay()}, "x": b2i(extra)}
-			// the counters are per civil day: the time of day the object was built for must not matter
-			hmsOf := [][3]int{{12, 0, 0}, {23, 30, 0}, {0, 0, 0}, {6, 45, 10}, {23, 0, 0}}[k%5]
 			pp, _ := try(func() {
-				if s2, bad := safeSolar(s.GetYear(), s.GetMonth(), s.GetDay(), hmsOf[0], hmsOf[1], hmsOf[2]); !bad {
-					s = s2
-				}
 				l := s.GetLunar()
 				row["ly"] = l.GetYear()
 				row["ys"] = []int{l.GetYearNineStarBySect(1).GetIndex(), l.GetYearNineStarBySect(2).GetIndex(), l.GetYearNineStarBySect(3).GetIndex(), l.GetYearNineStar().GetIndex()}
